@@ -3,6 +3,7 @@ package main
 
 import (
 	"bytes"
+	"encoding/binary"
 	"errors"
 	"fmt"
 	"io"
@@ -346,6 +347,26 @@ func (c *ctx) check(f *file, libpcapToo bool) {
 			}
 		}
 	}
+	// 1b. pcapng framing: the file is a sequence of blocks whose total length stands at both ends
+	// (what every other pcapng reader, libpcap included, walks the file by)
+	if f.kind == "pcapng" {
+		for off, nb := 0, 0; off < len(f.bytes); nb++ {
+			if len(f.bytes)-off < 12 {
+				c.fail("framing|trailing-bytes", fmt.Sprintf("%d bytes after the last block (block %d at offset %d)", len(f.bytes)-off, nb, off), f, nil)
+				return
+			}
+			tl := int(binary.LittleEndian.Uint32(f.bytes[off+4:]))
+			if tl < 12 || tl%4 != 0 || off+tl > len(f.bytes) {
+				c.fail("framing|block-length", fmt.Sprintf("block %d at offset %d announces total length %d (file has %d bytes)", nb, off, tl, len(f.bytes)), f, nil)
+				return
+			}
+			if tr := int(binary.LittleEndian.Uint32(f.bytes[off+tl-4:])); tr != tl {
+				c.fail("framing|trailer-differs-from-header-length", fmt.Sprintf("block %d (type %#x) at offset %d: total length %d in its header, %d in its trailer", nb, binary.LittleEndian.Uint32(f.bytes[off:]), off, tl, tr), f, nil)
+				return
+			}
+			off += tl
+		}
+	}
 	// 2. every truncation offset: exactly the wholly contained packets, unaltered, then EOF / unexpected EOF
 	mode := 0
 	for cut := 0; cut < len(f.bytes); cut++ {
@@ -448,6 +469,9 @@ func str(n int) string {
 	return string(b)
 }
 
+var base14 = pcapgo.NgInterface{Name: "eth", Comment: "", Description: "", Filter: "", OS: "os", LinkType: layers.LinkTypeEthernet, SnapLength: 0, TimestampResolution: 9}
+var sbase14 = pcapgo.NgSectionInfo{Hardware: "hw", OS: "os", Application: "app", Comment: ""}
+
 func main() {
 	r := report.New("C14", "fault_enumeration")
 	if os.Getenv("VERIF_REPLAY") != "" {
@@ -505,9 +529,33 @@ func main() {
 			}
 		}
 	}
+	// F1b: every data length up to maxLen, alone and followed by a second packet, by each writer
+	maxLen := 600
+	if r.Thorough() {
+		maxLen = 2100
+	}
+	for n := 0; n <= maxLen; n++ {
+		for kind := 0; kind < 3; kind++ {
+			for second := 0; second < 2; second++ {
+				pk := []pkt{{data: payload(n, byte(n)), ci: gopacket.CaptureInfo{Timestamp: stamps[n%len(stamps)], CaptureLength: n, Length: n + n%3}}}
+				if second == 1 {
+					pk = append(pk, pkt{data: payload(3, 7), ci: gopacket.CaptureInfo{Timestamp: stamps[(n+1)%len(stamps)], CaptureLength: 3, Length: 3}})
+				}
+				desc := fmt.Sprintf("every data length: %s packets=[len %d+%d%s]", [...]string{"pcap micro", "pcap nano", "pcapng"}[kind], n, n%3, [...]string{"", ", len 3+0"}[second])
+				var f *file
+				var err error
+				if kind == 2 {
+					f, err = writeNg([]pcapgo.NgInterface{base14}, sbase14, pk, desc)
+				} else {
+					f, err = writePcap(kind == 1, pk, desc)
+				}
+				add(f, err, second == 1 && (n < 64 || n%16 == 0))
+			}
+		}
+	}
 	// F2: pcapng, one interface: every string field at every length (others fixed), offsets, snap lengths
-	base := pcapgo.NgInterface{Name: "eth", Comment: "", Description: "", Filter: "", OS: "os", LinkType: layers.LinkTypeEthernet, SnapLength: 0, TimestampResolution: 9}
-	sbase := pcapgo.NgSectionInfo{Hardware: "hw", OS: "os", Application: "app", Comment: ""}
+	base := base14
+	sbase := sbase14
 	one := func(ts int) []pkt {
 		return []pkt{{data: payload(5, 9), ci: gopacket.CaptureInfo{Timestamp: stamps[ts%len(stamps)], CaptureLength: 5, Length: 8}}}
 	}
@@ -597,7 +645,7 @@ func main() {
 					pk := []pkt{{data: payload(3, 1), ci: gopacket.CaptureInfo{Timestamp: stamps[1], CaptureLength: 3, Length: 3}, opts: oo},
 						{data: payload(4, 2), ci: gopacket.CaptureInfo{Timestamp: stamps[3], CaptureLength: 4, Length: 9}, opts: pcapgo.NgPacketOptions{Comments: []string{"second"}}}}
 					f, err := writeNg([]pcapgo.NgInterface{base}, sbase, pk, fmt.Sprintf("packet options {%s}", normOpts(oo)))
-					add(f, err, variant == 0 && len(hs) == 0 && len(vs) == 0)
+					add(f, err, len(hs) == 0 && len(vs) == 0)
 				}
 			}
 		}
